@@ -65,6 +65,15 @@ class Boom(Exception):
     pass
 
 
+class ExitBoom(SystemExit):
+    """a nested simulation may end with any exception - also with one of those that scopes pass
+    on unwrapped; the enclosing simulation goes on all the same"""
+
+
+class KeyboardBoom(KeyboardInterrupt):
+    pass
+
+
 class EmptyBoom(Boom):
     """a falsy exception (like an empty error collection): a failure like any other"""
     def __len__(self):
@@ -132,8 +141,11 @@ def run_history(case, rng):
         deep = rng.random() < 0.4
         falsy = rng.random() < 0.4
 
+        inner_failure = rng.choice([Boom, Boom, ExitBoom, KeyboardBoom])
+
         def root(number, kind=kind, log=log, raised=raised, n_roots=n_roots,
-                 nested_log=nested_log, deep=deep, falsy=falsy, step=step):
+                 nested_log=nested_log, deep=deep, falsy=falsy, step=step,
+                 inner_failure=inner_failure):
             async def body():
                 log.append(('begin', number, time.now))
                 if number == 0 and foreign:
@@ -158,10 +170,10 @@ def run_history(case, rng):
                             await (time + 7)
                         inner_log.append(time.now)
                         if kind == 'nested-fail':
-                            raise Boom('inner')
+                            raise inner_failure('inner')
                     try:
                         usim.run(inner(), start=100)
-                    except Boom:
+                    except (Boom, ExitBoom, KeyboardBoom):
                         nested_log.append('inner-failed')
                     nested_log.append(tuple(inner_log))
                     try:
